@@ -283,6 +283,15 @@ pub trait Engine: Sync {
     fn hang_case(&self, _ctx: &Ctx, _index: usize, _call: u64) -> Option<(BTreeMap<String, String>, Value)> {
         None
     }
+    /// harness self-tests that must pass before anything this engine reports is believed
+    /// (exit 2 otherwise)
+    fn preflight(&self) -> Result<String, String> {
+        Ok(String::new())
+    }
+    /// one-line description of a case (debugging aid)
+    fn describe(&self, _ctx: &Ctx, _index: usize) -> String {
+        String::new()
+    }
     /// CPU seconds without progress after which a call counts as hung
     fn hang_secs(&self) -> f64 {
         8.0
@@ -570,6 +579,17 @@ pub fn write_replay(ctx: &Ctx, engine: &dyn Engine, v: &Violation) -> String {
 pub fn run_property(engine: &dyn Engine, ctx: &Ctx) -> i32 {
     let t0 = Instant::now();
     set_hang_secs(engine.hang_secs());
+    match engine.preflight() {
+        Ok(msg) => {
+            if !msg.is_empty() {
+                println!("verif-sim: preflight: {msg}");
+            }
+        }
+        Err(e) => {
+            eprintln!("HARNESS-ERROR: preflight failed: {e}");
+            return 2;
+        }
+    }
     let n = engine.num_cases(ctx);
     println!(
         "verif-sim: property={} tier={:?} VERIF_SEED={} profile={} cases={} workers={}",
